@@ -11,6 +11,7 @@ import (
 	"strconv"
 
 	"verif/harness/core"
+	"verif/harness/gen"
 	"verif/harness/mon"
 )
 
@@ -21,11 +22,13 @@ func main() {
 	replay := flag.String("replay", "", "replay file: re-run exactly that case")
 	verbose := flag.Bool("v", false, "verbose stage output")
 	verif := flag.String("verif", "/verif", "verification root")
+	repo := flag.String("repo", "/repo", "repository under test (only used to read its test tables as corpus)")
 	workers := flag.Int("workers", 0, "worker count (default GOMAXPROCS)")
 	isoChild := flag.String("isolation-child", "", "internal: run the C04 isolation stage (race build) and write the summary to this file")
 	flag.Parse()
 	debug.SetGCPercent(600)
 	core.VerifDir = *verif
+	gen.RepoDir = *repo
 	seed := uint64(1)
 	if s := os.Getenv("VERIF_SEED"); s != "" {
 		if v, err := strconv.ParseUint(s, 10, 64); err == nil {
